@@ -31,6 +31,7 @@ type TermFactory struct {
 	vars  []*Term
 	tt    *Term
 	ff    *Term
+	owner *Solver // solver of the machine that owns this factory (model_zz_grpa_scaled.go)
 }
 
 func newTermFactory() *TermFactory {
@@ -194,6 +195,9 @@ func (f *TermFactory) Eq(a, b *Term) *Term {
 	}
 	if a.id > b.id {
 		a, b = b, a
+	}
+	if r := f.eqScaled(a, b); r != nil {
+		return r // model_zz_grpa_scaled.go
 	}
 	return f.mk(&Term{op: "=", args: []*Term{a, b}})
 }
